@@ -13,6 +13,8 @@ def sTrue : Str := "true".toList
 def sFalse : Str := "false".toList
 def sNull : Str := "null".toList
 def sOn : Str := "on".toList
+def sImplements : Str := "implements".toList
+def sRepeatable : Str := "repeatable".toList
 
 mutual
 /-- Value -/
@@ -370,7 +372,7 @@ def pSepList (sep : P) (f : Nat) : List Tok → PR (List Str)
 
 /-- ImplementsInterfaces? -/
 def pImplements (f : Nat) : List Tok → PR (List Str)
-  | .name n :: r => if n = "implements".toList then pSepList .amp f r else some ([], .name n :: r)
+  | .name n :: r => if n = sImplements then pSepList .amp f r else some ([], .name n :: r)
   | ts => some ([], ts)
 
 /-- UnionMemberTypes? -/
@@ -510,7 +512,7 @@ def pTypeSystemRest (f : Nat) (desc : Option Str) (kwd : Str) (r : List Tok) : P
       | some (as, r1) =>
         let (rep, r2) : Bool × List Tok :=
           match r1 with
-          | .name x :: r' => if x = "repeatable".toList then (true, r') else (false, r1)
+          | .name x :: r' => if x = sRepeatable then (true, r') else (false, r1)
           | _ => (false, r1)
         match r2 with
         | .name o :: r3 =>
